@@ -100,6 +100,12 @@ def families():
     F["filter:nesting-not-padded"] = ("filter", lambda n: "(! " * (n // 4) + "(cn=a)" + ")" * (n // 4))
     F["filter:nesting-padded-both"] = ("filter", lambda n: "(& " * (n // 5) + "(cn=a)" + " )" * (n // 5))
     F["filter:nesting-siblings-padded"] = ("filter", lambda n: "(| (x=y) " * (n // 10) + "(cn=a)" + ")" * (n // 10))
+    for bad in ("(a)", "(a=b", "(=x)", "a=b"):
+        for op in ("&", "|"):
+            def fam2(n, bad=bad, op=op):
+                d = max(n // 9, 1)
+                return ("(" + op) * d + bad + "(x=y))" * d
+            F[f"filter:bad-leaf-with-siblings-{'and' if op == '&' else 'or'}-{bad}"] = ("filter", fam2)
     F["filter:nesting-unclosed"] = ("filter", lambda n: "(&" * (n // 2))
     F["filter:wide-and"] = ("filter", lambda n: "(&" + "(a=b)" * (n // 5) + ")")
     F["filter:escapes"] = ("filter", lambda n: "(a=" + "\\41" * (n // 3) + ")")
